@@ -334,7 +334,15 @@ pub fn gen_program(r: &mut Rng, cfg: &GenCfg) -> (String, Vec<&'static str>) {
 /// shadowed locals, tagged values stored over equal untagged ones
 pub fn shape(r: &mut Rng) -> String {
     let (a, b, n) = (r.range(-9, 99), r.range(-9, 99), r.range(0, 5));
-    match r.below(15) {
+    match r.below(21) {
+        // a name that means a variable and then a word (or the other way round): `!` goes by what the name means NOW
+        15 => format!("{} var n : get-n n ; : n {} ; 7 ! n get-n", a, b),
+        16 => format!(": n {} ; {} var n : get-n n ; 7 ! n get-n n : n 1 ; get-n n", a, b),
+        // a local whose `local` statement was skipped: reading it is an error when no later slot exists, whatever the nesting
+        17 => format!(": f if {} local a then a ; false f", a),
+        18 => format!(": f {} 0 do {} local y loop y ; f 0 var z : g 0 0 do 1 local y loop y ; g", n, a),
+        19 => format!(": down dup 0 > if 1 - down then ; {} down", *r.pick(&[3, 40, 200])),
+        20 => format!(": up local n n {} < if n 1 + up else n then ; 0 up", *r.pick(&[2, 30, 150])),
         0 => format!("{} var x : getx x ; {} var x getx x", a, b),
         1 => format!("0 var acc : add acc + ! acc ; {} add 0 var acc {} ! acc 1 add acc", a, b),
         2 => format!(": f {} ; : g f ; : f {} ; g f", a, b),
